@@ -186,6 +186,8 @@ func runCase(c *Case) (res string) {
 		return runRegex(c, tree)
 	case "rxcache":
 		return runRxCache(c)
+	case "tmpl":
+		return runTmpl(c, tree)
 	}
 	return "badkind"
 }
